@@ -498,6 +498,40 @@ func (s *serComp) Generate(rng *rand.Rand, n int, emit func(Case)) {
 		}
 		emit(Case{Ops: ops, Tag: "records"})
 	}
+	// rewritten values on both sides of the 65536-byte header boundary, for chains of one to three inline steps: the header is
+	// chosen from the chain's own estimate of the length, so every partial sum of the inlined prefixes is a boundary of its own
+	{
+		names := []string{"msg", "class", "task", "zone"}
+		hexN := make([]string, len(names))
+		for j, nm := range names {
+			hexN[j] = hx([]byte(nm))
+		}
+		vals := [][]byte{nil, []byte("MyClass1"), []byte("t-42"), []byte("eu")}
+		for _, chain := range [][]int{{1}, {1, 2}, {2, 1}, {1, 2, 3}, {3, 1, 1}} {
+			var steps []string
+			sums := []int{0}
+			for _, f := range chain {
+				steps = append(steps, fmt.Sprintf("i%d", f))
+			}
+			// prefix of an inline step: name + "=" + value + " "
+			for k := len(chain) - 1; k >= 0; k-- {
+				f := chain[k]
+				sums = append(sums, sums[len(sums)-1]+len(names[f])+1+len(vals[f])+1)
+			}
+			for _, last := range []string{"c", "u"} {
+				cfg := Op{Name: "ser cfg", Strs: []string{"N=" + strings.Join(hexN, ","), "E=3", "X=" + hexN[3], "H=", "R=0:" + strings.Join(append(append([]string{}, steps...), last), "+")}}
+				ops := []Op{cfg}
+				for _, sm := range sums {
+					for _, d := range []int{-1, 0, 1, 5} {
+						l := 65536 - sm - d
+						fields := [][]byte{bytes.Repeat([]byte("m"), l), vals[1], vals[2], vals[3]}
+						ops = append(ops, Op{Name: "ser rec", Ints: []int64{1565873446, 7, 0}, Bytes: fields})
+					}
+				}
+				emit(Case{Ops: ops, Tag: "rewrite-boundary"})
+			}
+		}
+	}
 	if n >= 100000 { // a record that does not fit the preallocated buffer (3 MiB non-message field)
 		ops := []Op{{Name: "ser cfg", Strs: []string{"N=" + hx([]byte("host")) + "," + hx([]byte("log")), "E=0", "X=" + hx([]byte("host")), "H=", "R=1:u"}}}
 		ops = append(ops, Op{Name: "ser rec", Ints: []int64{1565873446, 5, 0}, Bytes: [][]byte{bytes.Repeat([]byte("h"), 3<<20), []byte("m\\n")}})
